@@ -1,18 +1,17 @@
 """C01 - computed values equal NumPy's.
 
 Deciding monitor: result comparison against the NumPy shadow interpreter, over generated recipes,
-on the real executors, optimisation on/off. Exceptions are not C01 violations (cubed may decline).
+on the real executors, optimisation on/off. Exceptions are not C01 violations (cubed may decline;
+type and phase of the exception are C17's business).
 """
 from __future__ import annotations
 
 import os
-import random
-import shutil
-import time
 
 import numpy as np
 
-from vlib import gen, runner
+from checks import _rc
+from vlib import gen, optable, runner
 
 PROPERTY = "C01"
 LEVEL = "exploration"
@@ -26,122 +25,63 @@ RULE = (
 )
 ASSUMPTIONS = [
     "NumPy 2.x evaluation of the recipe is the reference; candidates NumPy itself rejects are out of scope",
-    "float results compared with dtype-scaled tolerance (exact for integer/bool results)",
+    "float results compared with dtype-scaled tolerance (exact for integer/bool results); qr/svd by reconstruction",
     "the processes executor is sampled on a subset of recipes because of its start-up cost",
 ]
-
 NSHARDS = {"quick": 16, "thorough": 32}
 PER_SHARD = {"quick": 110, "thorough": 1800}
-CONFIGS = [
-    {"executor": "single-threaded", "optimize": True},
-    {"executor": "single-threaded", "optimize": False},
-    {"executor": "threads", "optimize": True},
-    {"executor": "threads", "optimize": False},
-]
 
 
 def shards(tier, seed):
-    return [{"n": PER_SHARD[tier], "maxdim": 9 if tier == "quick" else 13, "depth": 4 if tier == "quick" else 7,
-             "watchdog_s": TIMEOUT[tier] - 30} for _ in range(NSHARDS[tier])]
+    return [
+        {"n": PER_SHARD[tier], "maxdim": 9 if tier == "quick" else 13, "depth": 4 if tier == "quick" else 7,
+         "watchdog_s": TIMEOUT[tier] - 30}
+        for _ in range(NSHARDS[tier])
+    ]
 
 
-def evaluate_case(recipe, np_vals, cfg, workdir, res, case_id):
-    """Runs one (recipe, cfg); records observations into res. Returns list of violations."""
-    rec = runner.run_recipe(recipe, cfg, workdir, monitors=())
-    res["counters"]["runs"] += 1
-    cfgname = f"{cfg['executor']}/{'opt' if cfg.get('optimize', True) else 'noopt'}"
-    res["hist"]["config"][cfgname] = res["hist"]["config"].get(cfgname, 0) + 1
-    viols = []
-    if rec["exc"] is not None:
-        res["counters"]["declined_or_failed"] += 1
-        k = f"{rec['phase']}:{rec['exc']['type']}"
-        res["hist"]["exceptions"][k] = res["hist"]["exceptions"].get(k, 0) + 1
-        return viols, rec
+def judge(recipe, np_vals, cfg, rec, res, wd):
+    if rec["exc"] is not None or rec["results"] is None:
+        return []
     diffs = runner.check_values(recipe, np_vals, rec)
     res["counters"]["outputs_compared"] += len(rec["results"])
     res["counters"]["elements_compared"] += int(sum(np.asarray(r).size for r in rec["results"]))
-    # decompositions
-    for i, node in enumerate(recipe["nodes"]):
-        pass
-    if diffs:
-        loc = None
-        try:
-            loc = runner.localise(recipe, np_vals, cfg, os.path.join(workdir, "loc"))
-        except Exception as e:  # localisation is best-effort
-            loc = {"error": repr(e)[:200]}
-        viols.append(
-            {
-                "property": PROPERTY,
-                "kind": "value-mismatch",
-                "msg": f"{cfgname}: {diffs[0]['diff']} (output node {diffs[0]['output']} op {diffs[0]['op']}); culprit={loc}",
-                "facts": {"culprit": loc, "config": cfg, "diffs": diffs[:3], "ops": gen.recipe_ops(recipe)},
-                "case": {"recipe": recipe, "cfg": cfg},
-            }
-        )
-    return viols, rec
+    if not diffs:
+        return []
+    try:
+        loc = runner.localise(recipe, np_vals, cfg, os.path.join(wd, "loc"))
+    except Exception as e:  # localisation is best-effort
+        loc = {"error": repr(e)[:200]}
+    return [
+        {
+            "kind": "value-mismatch",
+            "msg": f"{_rc.cfg_name(cfg)}: {diffs[0]['diff']} (output node {diffs[0]['output']} op {diffs[0]['op']}); culprit={loc}",
+            "facts": {"culprit": loc, "config": cfg, "diffs": diffs[:3], "ops": gen.recipe_ops(recipe)},
+        }
+    ]
 
 
-def new_result():
-    return {
-        "evaluations": 0,
-        "nontrivial": [],
-        "counters": {"runs": 0, "declined_or_failed": 0, "outputs_compared": 0, "elements_compared": 0,
-                     "numpy_rejected_candidates": 0, "recipes": 0},
-        "hist": {"ops": {}, "config": {}, "exceptions": {}},
-        "samples": [],
-        "violations": [],
-        "maxes": {},
-        "sets": {},
-    }
+EXTRA = ("outputs_compared", "elements_compared")
 
 
 def run_shard(spec, workdir):
-    rng = random.Random(spec["seed"])
-    res = new_result()
-    t0 = time.time()
-    for k in range(spec["n"]):
-        g = gen.Gen(rng.getrandbits(48), maxdim=spec["maxdim"], depth=spec["depth"])
-        recipe, np_vals = g.generate()
-        res["counters"]["numpy_rejected_candidates"] += g.rejected
-        res["counters"]["recipes"] += 1
-        for o in gen.recipe_ops(recipe):
-            res["hist"]["ops"][o] = res["hist"]["ops"].get(o, 0) + 1
-        cfgs = [CONFIGS[0], rng.choice(CONFIGS[1:])]
-        if rng.random() < 0.04:
-            cfgs.append({"executor": "processes", "optimize": rng.random() < 0.5})
-        for cfg in cfgs:
-            wd = os.path.join(workdir, f"r{k}")
-            viols, rec = evaluate_case(recipe, np_vals, cfg, wd, res, k)
-            shutil.rmtree(wd, ignore_errors=True)
-            res["evaluations"] += 1
-            if rec["results"] is not None and gen.is_nontrivial(recipe, np_vals):
-                res["nontrivial"].append(gen.rhash([recipe, cfg]))
-            res["violations"].extend(viols)
-        if k < 2 and spec.get("shard", 0) == 0:
-            res["samples"].append({"recipe": recipe, "configs": cfgs})
-    return res
+    return _rc.run_cases(spec, workdir, prop=PROPERTY, judge=judge, extra_counters=EXTRA)
 
 
 def replay(rep, workdir):
-    res = new_result()
-    case = rep["case"]
-    np_vals = gen.np_eval(case["recipe"])
-    viols, rec = evaluate_case(case["recipe"], np_vals, case["cfg"], os.path.join(workdir, "replay"), res, 0)
-    res["evaluations"] = 1
-    res["violations"] = viols
-    return res
+    return _rc.replay_case(rep, workdir, prop=PROPERTY, judge=judge, extra_counters=EXTRA)
 
 
 def finalize(tier, merged):
     c = merged["counters"]
     floor = 800 if tier == "quick" else 20000
-    from vlib import optable
-
     missing = sorted(set(optable.expected_ops()) - set(merged["hist"].get("ops", {})))
     return {
         "rule": RULE,
-        "floors": [("outputs compared with NumPy", c.get("outputs_compared", 0), floor),
-                   ("distinct public functions exercised", len(merged["hist"].get("ops", {})), 100)],
+        "floors": [
+            ("outputs compared with NumPy", c.get("outputs_compared", 0), floor),
+            ("distinct public functions exercised", len(merged["hist"].get("ops", {})), 100),
+        ],
         "coverage_extra": {"functions_never_exercised_this_run": missing},
         "assumptions": ASSUMPTIONS,
     }
